@@ -88,6 +88,13 @@ type Path struct {
 	altsFound [][]int
 }
 
+// siteKey: unwinding is counted per instruction site and per function activation (a loop re-visits
+// the site inside one activation; a helper called many times does not).
+type siteKey struct {
+	site  ssa.Instruction
+	frame int
+}
+
 type pathEnd struct {
 	outcome string
 	msg     string
@@ -130,7 +137,9 @@ type Machine struct {
 	htrace    []string
 	held      map[string]int // lock key -> 1 write, 2+ = readers+1
 	heldOrder []string
-	siteCnt   map[ssa.Instruction]int
+	siteCnt   map[siteKey]int
+	frameSeq  int
+	curFrame  int
 	steps     int
 	depth     int
 	onceDone  map[string]bool
@@ -166,7 +175,9 @@ func (m *Machine) reset(prefix []int) {
 	m.htrace = nil
 	m.held = map[string]int{}
 	m.heldOrder = nil
-	m.siteCnt = map[ssa.Instruction]int{}
+	m.siteCnt = map[siteKey]int{}
+	m.frameSeq = 0
+	m.curFrame = 0
 	m.steps = 0
 	m.depth = 0
 	m.onceDone = map[string]bool{}
@@ -275,9 +286,17 @@ func (m *Machine) decide(conds []*smt.Term, site ssa.Instruction) int {
 		}
 	}
 	if site != nil { // decisions made inside intrinsics (no site) are bounded by the intrinsics themselves
-		m.siteCnt[site]++
-		if m.siteCnt[site] > m.curUnwind {
-			m.end("unwind", fmt.Sprintf("more than %d symbolic decisions at %s", m.curUnwind, m.P.Fset.Position(site.Pos())))
+		k := siteKey{site, m.curFrame}
+		m.siteCnt[k]++
+		if m.siteCnt[k] > m.curUnwind {
+			where := m.P.Fset.Position(site.Pos()).String()
+			if iff, ok := site.(*ssa.If); ok {
+				where = m.P.Fset.Position(iff.Cond.Pos()).String()
+			}
+			if site.Parent() != nil {
+				where += " in " + site.Parent().Name()
+			}
+			m.end("unwind", fmt.Sprintf("more than %d symbolic decisions at %s", m.curUnwind, where))
 		}
 	}
 	pos := len(m.trace)
@@ -430,6 +449,10 @@ func (m *Machine) callValue(f Value, args []Value, site ssa.Instruction) Value {
 }
 
 func (m *Machine) interpret(fn *ssa.Function, args []Value, bind []Value) Value {
+	m.frameSeq++
+	saved := m.curFrame
+	m.curFrame = m.frameSeq
+	defer func() { m.curFrame = saved }()
 	fr := &frame{fn: fn, regs: make(map[ssa.Value]Value, 64), bind: bind}
 	if len(args) != len(fn.Params) {
 		panic(unsupported(fmt.Sprintf("arity mismatch calling %s: %d args for %d params", fn, len(args), len(fn.Params))))
@@ -705,7 +728,11 @@ func (m *Machine) exec(fr *frame, ins ssa.Instruction) {
 		}
 		m.effect("spawn", smt.StrC(name))
 		if m.GoInline {
+			// only goroutines started directly by the code under GoInline(true) run inline; the ones
+			// they start themselves (tickers, retransmitters) are recorded as spawn effects
+			m.GoInline = false
 			fnv(args)
+			m.GoInline = true
 		}
 	case *ssa.Send:
 		ch := m.get(fr, ins.Chan).(*ChanV)
